@@ -112,7 +112,7 @@ OnCycle(e) ==
               <<"C02.cycle_at_unrequested_time", e.t \in S.reqT>> >>, 1)
         IN IF why # "" THEN Fail(why)
            ELSE \* C08: a value written to a feedback at t-1 is what its readers see from the start of cycle t
-                LET dl == {f \in 1..NN(tid) : S.fbq[f] # <<>> /\ S.fbq[f][1][1] = e.t}
+                LET dl == {f \in 1..NN(tid) : Node(f).kind = "fb" /\ S.fbq[f] # <<>> /\ S.fbq[f][1][1] = e.t}
                 IN Ok([S EXCEPT !.rnow = e.t, !.gnow[0] = e.t, !.gcyc[0] = e.t, !.evald[0] = {},
                              !.fired = {}, !.due = {}, !.stale = {}, !.cyc = @ \cup {e.t},
                              !.threw = {}, !.errd = {},
@@ -181,6 +181,7 @@ Expected(s, e) ==
         iok == [k \in 1..Len(n.ins) |-> s.lw[n.ins[k]] # 0]
     IN CASE n.kind = "src"   -> [w |-> ScriptVal(i, e.t) # NoVal, v |-> ScriptVal(i, e.t), s |-> s.nst[i]]
          [] n.kind = "timer" -> [w |-> TRUE, v |-> s.nst[i], s |-> s.nst[i] + 1]
+         [] n.kind = "echo"  -> [w |-> i \in s.due /\ s.fbq[i] # <<>>, v |-> IF s.fbq[i] # <<>> THEN s.fbq[i][1][2] ELSE 0, s |-> s.nst[i]]
          [] n.kind = "delay" -> [w |-> i \in s.due, v |-> s.nst[i],
                                  s |-> IF s.lw[n.ins[1]] = e.t THEN iv[1] ELSE s.nst[i]]
          [] OTHER            -> F(n, iv, iok, s.nst[i])
@@ -220,7 +221,12 @@ OnFn(e) ==
                 threw == "throw" \in DOMAIN e
             IN IF (e.w = 1) # x.w \/ (x.w /\ e.out # x.v)
                THEN Fail("C03.output_is_not_the_function_of_the_inputs")
-               ELSE LET s1 == [S EXCEPT !.fired = @ \cup {i}, !.nst[i] = x.s,
+               ELSE LET s0 == IF n.kind = "echo"
+                                 THEN LET q1 == IF x.w THEN Tail(S.fbq[i]) ELSE S.fbq[i]
+                                          q2 == IF S.lw[n.ins[1]] = t THEN Append(q1, <<t + n.k, S.lv[n.ins[1]]>>) ELSE q1
+                                      IN [S EXCEPT !.fbq[i] = q2]
+                                 ELSE S
+                        s1 == [s0 EXCEPT !.fired = @ \cup {i}, !.nst[i] = x.s,
                                         !.threw = IF threw THEN @ \cup {<<i, e.in[1].v>>} ELSE @,
                                         !.tagt[i] = IF n.kind = "delay" /\ i \in S.due /\ @ = t THEN 0 ELSE @]
                         s2 == IF x.w THEN [s1 EXCEPT !.lw[i] = t, !.lv[i] = x.v,
